@@ -227,22 +227,36 @@ static void calibrate_sites()
         g_sched_hook = cal_hook;
         *g_status = ST_NOT_DONE;
         cal_sites.clear();
-        check(); // winner: fast, cas
-        if (cal_sites.size() != 2) {
-                fprintf(stderr, "HARNESS: sched-point calibration failed (winner path saw %zu sites; is hook H4 compiled in?)\n", cal_sites.size());
+        check(); // winner path
+        if (cal_sites.empty()) {
+                fprintf(stderr, "HARNESS: no scheduling point reached in asm_check_self_tests_status (is hook H4 compiled in?)\n");
                 exit(2);
         }
+        // Site roles are only used to label yield points and to let a spinning task yield its PCT priority;
+        // a changed protocol (more or fewer points) must not stop the check, so be lenient here.
         site_fast = cal_sites[0];
-        site_cas = cal_sites[1];
+        site_cas = cal_sites.size() > 1 ? cal_sites[1] : 0;
         cal_sites.clear();
         cal_spins = 0;
-        check(); // status RUNNING: fast, cas, spin, spin, spin(->OK), final
-        if (cal_sites.size() < 5) {
-                fprintf(stderr, "HARNESS: sched-point calibration failed (loser path)\n");
-                exit(2);
+        *g_status = ST_RUNNING;
+        // loser path: the site that repeats is the spin compare; cal_hook releases the spinner after a few rounds.
+        // A protocol that does not wait at all returns immediately, one that never looks again would hang: bound it.
+        {
+                static int rounds;
+                rounds = 0;
+                g_sched_hook = [](uintptr_t site) {
+                        cal_hook(site);
+                        if (++rounds > 64)
+                                *g_status = ST_OK;
+                };
+                check();
+                g_sched_hook = cal_hook;
         }
-        site_spin = cal_sites[2];
-        site_final = cal_sites.back();
+        site_spin = 0;
+        for (size_t k = 1; k < cal_sites.size(); k++)
+                if (cal_sites[k] == cal_sites[k - 1])
+                        site_spin = cal_sites[k];
+        site_final = cal_sites.empty() ? 0 : cal_sites.back();
         cal_sites.clear();
         g_set_status(ST_NOT_DONE);
         site_publish = cal_sites.empty() ? 0 : cal_sites[0];
